@@ -27,6 +27,7 @@ pub fn run_comp(case: &Arc<Case>, ctx: &Arc<ExecCtx>) -> RunInfo {
         Comp::Chan(c) => run_chan(c, ctx),
         Comp::Task(t) => run_task(t, ctx),
         Comp::Time(t) => run_time(t, ctx),
+        Comp::Set(t) => run_set(t, ctx),
     }
     let probes = nexosim::verif::uninstall();
     RunInfo { probes, completed: true }
@@ -562,4 +563,82 @@ fn run_time(t: &TimeCase, ctx: &Arc<ExecCtx>) {
     }
     let last = cell.read();
     ctx.log(Ev::Comp(CompEv::TimeFinal { idx: time_index(step, last, writes).map(|i| i as i64).unwrap_or(-1) }));
+}
+
+// ------------------------------------------------------------------ C14(b): task set
+
+/// The owner mirrors `BroadcastFuture::poll`: register the waker, take the scheduled sub-tasks,
+/// return `Pending` when there are none (a notification is then armed).
+struct SetOwner<'a> {
+    set: &'a mut nx::VTaskSet,
+    ctx: &'a Arc<ExecCtx>,
+    seen: Vec<u32>,
+    notify: usize,
+    polls: u32,
+}
+impl Future for SetOwner<'_> {
+    type Output = u32;
+    fn poll(self: Pin<&mut Self>, cx: &mut Context<'_>) -> Poll<u32> {
+        let this = self.get_mut();
+        this.polls += 1;
+        this.set.register(cx.waker());
+        loop {
+            // A notification may be requested after at most as many wake-ups as are certain to
+            // come: every sub-task not seen yet is still going to be woken at least once.
+            let unseen = this.seen.iter().filter(|c| **c == 0).count().max(1);
+            match this.set.take_scheduled(this.notify.min(unseen)) {
+                Some(batch) => {
+                    this.ctx.log(Ev::Comp(CompEv::SetBatch { indices: batch.clone(), poll: this.polls }));
+                    for i in batch {
+                        if i < this.seen.len() {
+                            this.seen[i] += 1;
+                        }
+                    }
+                    if this.seen.iter().all(|c| *c > 0) {
+                        return Poll::Ready(this.polls);
+                    }
+                }
+                None => {
+                    this.ctx.log(Ev::Comp(CompEv::SetPending { poll: this.polls }));
+                    return Poll::Pending;
+                }
+            }
+        }
+    }
+}
+
+fn run_set(t: &SetCase, ctx: &Arc<ExecCtx>) {
+    let len = t.len.max(1) as usize;
+    let mut set = nx::VTaskSet::new(len);
+    // Stale wake-ups from a previous use are discarded first.
+    for i in &t.stale {
+        set.waker(*i as usize % len).wake();
+    }
+    set.discard_scheduled();
+    let mut handles = Vec::new();
+    for (wi, list) in t.wakers.iter().enumerate() {
+        let wakers: Vec<(u8, bool, Waker)> = list.iter().map(|(i, v)| (*i, *v, set.waker(*i as usize % len))).collect();
+        let ctx = ctx.clone();
+        let th = wi as u8;
+        handles.push(rt::spawn(move || {
+            for (i, by_val, w) in wakers {
+                ctx.log(Ev::Comp(CompEv::SetWakeBegin { thread: th, idx: i }));
+                if by_val {
+                    w.wake();
+                } else {
+                    w.wake_by_ref();
+                }
+                ctx.log(Ev::Comp(CompEv::SetWakeEnd { thread: th, idx: i }));
+            }
+        }));
+    }
+    let polls = rt::block_on(SetOwner { set: &mut set, ctx, seen: vec![0; len], notify: t.notify_count.max(1) as usize, polls: 0 });
+    ctx.log(Ev::Comp(CompEv::SetDone { polls }));
+    for h in handles {
+        let _ = h.join();
+    }
+    // Whatever was woken after the owner finished is still scheduled: take it so that it is accounted for.
+    if let Some(batch) = set.take_scheduled(0) {
+        ctx.log(Ev::Comp(CompEv::SetBatch { indices: batch, poll: u32::MAX }));
+    }
 }
